@@ -267,12 +267,15 @@ def reset_fields(f, prog):
     sy = Sym(f)
     out = {}
     calls = []
+    rets = f.return_blocks()
     for i, j, s in f.stmts():
         if s["s"] != "assign":
             continue
         lhs = s["lhs"]
         if lhs["l"] != 1 or "*" not in lhs["p"]:
             continue
+        if not all(f.dominates(i, r) for r in rets):
+            continue   # a re-initialisation that some path to the return skips does not count (e.g. behind an early return)
         names = []
         idx = None
         for el in lhs["p"]:
@@ -287,6 +290,8 @@ def reset_fields(f, prog):
                 names.append("?")
         out[tuple(names)] = canon(sy.rvalue(s["rv"]))
     for i, t in f.calls():
+        if not all(f.dominates(i, r) for r in rets):
+            continue
         for a in t["args"]:
             if a["k"] in ("copy", "move"):
                 e = sy.operand(a)
